@@ -6,7 +6,7 @@ export VERIF_EVIDENCE_DIR=$PWD/ev-thorough VERIF_REPLAY_DIR=$PWD/replays-thoroug
 mkdir -p $VERIF_EVIDENCE_DIR
 tier=${1:-thorough}
 : > summary.log
-for id in C07 C12 C02 C04 C14 C08 C03 C13 C01 C19 C11 C05 C20 C09 C18 C15 C16 C06 C17; do
+for id in ${THOROUGH_IDS:-C16 C17 C06 C15 C09 C05 C18 C03 C19 C01 C13 C11 C20 C02 C04 C07 C08 C12 C14}; do
   s=$(date +%s)
   timeout 4000 ./check $id --tier $tier > log-$id.txt 2>&1; ex=$?
   echo "$id exit=$ex secs=$(( $(date +%s)-s )) known=$(grep -c '^KNOWN-FINDING' log-$id.txt) viol=$(grep -c '^VIOLATION' log-$id.txt) inconc=$(grep -c '^INCONCLUSIVE' log-$id.txt)" >> summary.log
